@@ -117,6 +117,10 @@ func callersHold(P *Prog, fn *ssa.Function, lock *types.Var, needW bool, depth i
 	}
 	sites, valueUses := P.CallersAll(fn)
 	if len(sites) == 0 && len(valueUses) == 0 {
+		if fn.Object() != nil && !fn.Object().Exported() {
+			// unexported and unreferenced in non-test code: dead outside tests, cannot race in production
+			return true, ""
+		}
 		return false, fmt.Sprintf("%s has no callers and does not take the lock itself", fnName(fn))
 	}
 	for _, vu := range valueUses {
@@ -134,6 +138,10 @@ func callersHold(P *Prog, fn *ssa.Function, lock *types.Var, needW bool, depth i
 		}
 		ok, _ := heldAt(P, cs.Instr, lock, needW)
 		if ok {
+			continue
+		}
+		// constructor: the receiver was allocated in the calling function and has not escaped yet
+		if r := callRecv(cs.Instr.Common()); r != nil && isFreshBase(r) {
 			continue
 		}
 		if depth <= 0 {
@@ -290,6 +298,8 @@ func isFreshBase(v ssa.Value) bool {
 		switch x := v.(type) {
 		case *ssa.Alloc:
 			return true
+		case *ssa.Phi:
+			return false
 		case *ssa.FieldAddr:
 			v = x.X
 		case *ssa.IndexAddr:
